@@ -784,6 +784,72 @@ pub fn run(ctx: &mut Ctx) {
             ctx.stat("adopt_round_hit");
         } else { ctx.stat("adopt_round_no_hit"); }
     }
+    // ---- the same through `chunk_cache::get_cache`, the process-wide manager every client goes through: one cache per directory
+    // while any handle is alive, a newly opened one (fresh start-up scan, nothing verified yet) after the last handle is gone
+    for round in 0..(if ctx.quick() { 10 } else { 80 }) {
+        let mut rng = ctx.rng.fork(0x3A9A + round);
+        let env = gen_env(ctx, &mut rng, 3, false);
+        let _ = std::fs::remove_dir_all(&root);
+        let items: Vec<(usize, u32, u32)> = (0..3).flat_map(|k| { let n = env.xorbs[k].nchunks() as u32; if n >= 2 { let m = 1 + (round as u32 + k as u32) % (n - 1); vec![(k, 0, m), (k, m, n)] } else { vec![(k, 0, n)] } }).collect();
+        let flen = |it: &(usize, u32, u32)| { let (o, d) = env.xorbs[it.0].slice(it.1, it.2); (d.len() + 4 * (o.len() + 1)) as u64 };
+        // (a) C12: put, read (verified in memory), drop every handle, damage the file, get the cache again, read
+        {
+            let dir = root.join(format!("mgr-a-{round}"));
+            std::fs::create_dir_all(&dir).unwrap();
+            let cfg = CacheConfig { cache_directory: dir.clone(), cache_size: 1 << 30 };
+            let it = items[rng.below(items.len() as u64) as usize];
+            let x = &env.xorbs[it.0];
+            let (offs, data) = x.slice(it.1, it.2);
+            let range = ChunkRange { start: it.1, end: it.2 };
+            let replay = format!("{{\"suite\":\"cache_seq\",\"seed\":{},\"manager_round\":{round},\"scenario\":\"get_cache, put, get, drop all handles, flip one payload bit, get_cache, get\"}}", ctx.seed);
+            let ok = (|| { let c = chunk_cache::get_cache(&cfg).ok()?; c.put(&x.key, &range, &offs, data).ok()?; c.get(&x.key, &range).ok()? })().is_some();
+            let files: Vec<String> = walk_order(&dir).into_iter().filter(|(_, d)| !*d).map(|(p, _)| p).collect();
+            if ok && files.len() == 1 {
+                let p = dir.join(&files[0]);
+                let mut b = std::fs::read(&p).unwrap();
+                let pos = b.len() - 1 - rng.below(data.len() as u64) as usize;
+                b[pos] ^= 1 << rng.below(8);
+                std::fs::write(&p, &b).unwrap();
+                match guarded(|| chunk_cache::get_cache(&cfg).and_then(|c| c.get(&x.key, &range))) {
+                    Ok(Ok(Some(cr))) if cr.data.as_ref() != data || cr.offsets.as_ref() != offs.as_slice() =>
+                        ctx.fail("C12", "manager-reopen-serves-damaged-item", format!("an item of {} bytes was put and read through get_cache, all handles dropped, one payload bit of its file flipped; the cache obtained from get_cache afterwards returns a hit with the damaged bytes (round {round})", data.len()), replay),
+                    Err(()) => ctx.fail("C12", "panic", format!("get through a re-obtained cache panicked on a damaged file (manager round {round})"), replay),
+                    _ => {}
+                }
+                ctx.stat("manager_reopen_damage_rounds");
+            }
+        }
+        // (b) C13: two handles obtained after an earlier generation was dropped are one cache: the capacity bounds the bytes on
+        // disk after every put through either handle, and every file on disk is an entry both handles serve
+        {
+            let dir = root.join(format!("mgr-b-{round}"));
+            std::fs::create_dir_all(&dir).unwrap();
+            let cap: u64 = items.iter().take(3).map(|i| flen(i)).sum::<u64>().max(items.iter().map(|i| flen(i)).max().unwrap());
+            let cfg = CacheConfig { cache_directory: dir.clone(), cache_size: cap };
+            let replay = format!("{{\"suite\":\"cache_seq\",\"seed\":{},\"manager_round\":{round},\"scenario\":\"get_cache + drop, get_cache twice, puts alternating between the two handles\",\"capacity\":{cap}}}", ctx.seed);
+            let first = chunk_cache::get_cache(&cfg);
+            if let Ok(c) = &first { let it = items[0]; let (o, d) = env.xorbs[it.0].slice(it.1, it.2); let _ = c.put(&env.xorbs[it.0].key, &ChunkRange { start: it.1, end: it.2 }, &o, d); }
+            drop(first);
+            if let (Ok(h1), Ok(h2)) = (chunk_cache::get_cache(&cfg), chunk_cache::get_cache(&cfg)) {
+                for (i, it) in items.iter().enumerate() {
+                    let (o, d) = env.xorbs[it.0].slice(it.1, it.2);
+                    let h = if i % 2 == 0 { &h1 } else { &h2 };
+                    let _ = h.put(&env.xorbs[it.0].key, &ChunkRange { start: it.1, end: it.2 }, &o, d);
+                    let files: Vec<String> = walk_order(&dir).into_iter().filter(|(_, d)| !*d).map(|(p, _)| p).collect();
+                    let on_disk: u64 = files.iter().map(|f| std::fs::metadata(dir.join(f)).map(|m| m.len()).unwrap_or(0)).sum();
+                    if on_disk > cap { ctx.fail("C13", "capacity-exceeded-on-disk-through-manager", format!("{on_disk} bytes in {} cache files on disk after put {i} through handle {}, the capacity is {cap} (manager round {round})", files.len(), i % 2 + 1), replay.clone()); break; }
+                    let mut lost = None;
+                    for it2 in items.iter().take(i + 1) {
+                        let r1 = h1.get(&env.xorbs[it2.0].key, &ChunkRange { start: it2.1, end: it2.2 }).ok().flatten().is_some();
+                        let r2 = h2.get(&env.xorbs[it2.0].key, &ChunkRange { start: it2.1, end: it2.2 }).ok().flatten().is_some();
+                        if r1 != r2 { lost = Some((*it2, r1, r2)); break; }
+                    }
+                    if let Some((it2, r1, r2)) = lost { ctx.fail("C13", "handles-of-one-directory-disagree", format!("after put {i}: item (key {}, [{},{})) is a {} through the first handle and a {} through the second handle of the same cache directory: two caches track one directory (manager round {round})", it2.0, it2.1, it2.2, if r1 { "hit" } else { "miss" }, if r2 { "hit" } else { "miss" }), replay.clone()); break; }
+                }
+                ctx.stat("manager_two_handle_rounds");
+            }
+        }
+    }
     utils::verif_hooks::set_callback(None);
     std::panic::set_hook(old_hook);
     let _ = std::fs::remove_dir_all(&root);
